@@ -1,23 +1,23 @@
 /-
-The 13 edit-script actions (actions.py).  Node paths are kept as the strings the
-script carries (that is what the text format and the patcher see).
+The 13 edit-script actions (actions.py).  Node paths are structured (`Path`); their text
+form (`printPath` / `parsePath`) belongs to the text format (C02) and to the driver glue.
 -/
 import XmlDiffModel.Model.Path
 
 namespace XmlDiffModel
 
 inductive Action where
-  | deleteNode (node : Str)
-  | insertNode (target tag : Str) (pos : Nat)
-  | renameNode (node tag : Str)
-  | moveNode (node target : Str) (pos : Nat)
-  | updateTextIn (node : Str) (text : Option Str)
-  | updateTextAfter (node : Str) (text : Option Str)
-  | updateAttrib (node name value : Str)
-  | deleteAttrib (node name : Str)
-  | insertAttrib (node name value : Str)
-  | renameAttrib (node oldname newname : Str)
-  | insertComment (target : Str) (pos : Nat) (text : Option Str)
+  | deleteNode (node : Path)
+  | insertNode (target : Path) (tag : Str) (pos : Nat)
+  | renameNode (node : Path) (tag : Str)
+  | moveNode (node target : Path) (pos : Nat)
+  | updateTextIn (node : Path) (text : Option Str)
+  | updateTextAfter (node : Path) (text : Option Str)
+  | updateAttrib (node : Path) (name value : Str)
+  | deleteAttrib (node : Path) (name : Str)
+  | insertAttrib (node : Path) (name value : Str)
+  | renameAttrib (node : Path) (oldname newname : Str)
+  | insertComment (target : Path) (pos : Nat) (text : Option Str)
   | insertNamespace (pfx uri : Str)
   | deleteNamespace (pfx : Str)
   deriving DecidableEq, Repr
